@@ -208,6 +208,18 @@ CHECKS["C19"] = dict(
     technique="TLA+ spec of the listing / index rules checked by TLC; exhaustive table replay through the click runner and child processes",
     design="5 C19")
 
+CHECKS["C20"] = dict(
+    text=("Values.tla models a value object as (kind, value, raw) with the construction rule raw = value iff the raw argument is None, and "
+          "copy / deepcopy / pickle (protocols 0-5) as identity steps; TLC enumerates five kinds x value tokens (0, negative, 2^70, NaN, "
+          "+-inf, -0.0, denormal, empty / non-ASCII / NUL text and bytes, booleans) x 12 raw arguments (None, falsy and truthy of every "
+          "type) x all step sequences up to length 3 (RawRule, Preserved). Every exported case is executed on the real classes (raw rule, "
+          "type, value and raw value after every step) and the built-in operations (comparison, hashing, dict keys, arithmetic, "
+          "formatting, conversions, methods) are compared with the plain built-in; parsed packets from real generator runs are copied / "
+          "pickled and compared (items, order, raw values, raw bytes, cursor, header view)."),
+    note="The built-in side of every comparison is Python itself; hash of NaN is identity-based and not compared. " + TRUSTED,
+    technique="TLA+ state model of value objects and copy steps enumerated by TLC; every exported case replayed on the real classes",
+    design="5 C20")
+
 NOT_YET = {}
 for _i in range(1, 21):
     _p = f"C{_i:02d}"
